@@ -19,7 +19,7 @@ def b3 : Basis := .named 3
 /-- Variable names of the context, in order. -/
 def ctxNames : List String :=
   ["s", "n", "a", "v1", "v2", "w1", "v0", "p1", "p2", "q1", "vi", "vu",
-   "c1", "c2", "c3", "c4", "m12", "m21", "m23", "mp1", "mp2", "n12", "mu"]
+   "c1", "c2", "c3", "c4", "m12", "m21", "m23", "mp1", "mp2", "n12", "mu", "c5", "m34"]
 
 /-- The context: the type of each variable. -/
 def Γ : Ctx := [
@@ -45,7 +45,10 @@ def Γ : Ctx := [
   .mat 4 (.r2p b1),                 -- 19 mp1 : Mat4x4<RealToProj<B1>>
   .mat 4 (.r2p b2),                 -- 20 mp2 : Mat4x4<RealToProj<B2>>
   .mat 3 (.r2r 2 b1 b2),            -- 21 n12 : Mat3x3<RealToReal<2, B1, B2>>
-  .mat 4 .unit]                     -- 22 mu  : Mat4x4<()>
+  .mat 4 .unit,                     -- 22 mu  : Mat4x4<()>
+  .col .u8 3 .hsl,                  -- 23 c5  : Color3<Hsl>
+  .mat 3 (.r2r 4 b1 b2)]            -- 24 m34 : Matrix<[[f32; 3]; 3], RealToReal<4, B1, B2>>  (array too small
+                                    --          for its map dimension; constructible with `Matrix::new`)
 
 namespace V
 def s : Expr := .var 0
@@ -71,6 +74,8 @@ def mp1 : Expr := .var 19
 def mp2 : Expr := .var 20
 def n12 : Expr := .var 21
 def mu : Expr := .var 22
+def c5 : Expr := .var 23
+def m34 : Expr := .var 24
 end V
 
 structure Pair where
@@ -103,6 +108,18 @@ def pairs : List Pair := [
   ⟨"Affine::sub colour", .mixSpace, .bin .mSub c1 c2, .bin .mSub c1 c1⟩,
   ⟨"Affine::add colour with alpha", .mixSpace, .bin .mAdd c1 c3, .bin .mAdd c1 (.un .toRgb c3)⟩,
   ⟨"Affine::sub u8 colour vs f32 colour space", .mixSpace, .bin .mSub c4 (.un .toHsl c4), .bin .mSub c4 c4⟩,
+  ⟨"Affine::sub 8-bit colours of two spaces", .mixSpace, .bin .mSub c4 c5, .bin .mSub c5 c5⟩,
+  ⟨"8-bit colour + difference of colours of another space", .mixSpace,
+     .bin .mAdd c4 (.bin .mSub c5 c5), .bin .mAdd c4 (.bin .mSub c4 c4)⟩,
+  ⟨"8-bit HSL colour + difference of RGB colours", .mixSpace,
+     .bin .mAdd c5 (.bin .mSub c4 c4), .bin .mAdd c5 (.bin .mSub c5 c5)⟩,
+  ⟨"8-bit colour + difference of converted colours", .mixSpace,
+     .bin .mAdd (.un .toRgba c4) (.bin .mSub (.un .toHsla (.un .toRgba c4)) (.un .toHsla (.un .toRgba c4))),
+     .bin .mAdd (.un .toRgba c4) (.bin .mSub (.un .toRgba c4) (.un .toRgba c4))⟩,
+  ⟨"float colour + difference of colours of another space", .mixSpace,
+     .bin .mAdd c1 (.bin .mSub c2 c2), .bin .mAdd c1 (.bin .mSub c1 c1)⟩,
+  ⟨"point + difference of points of another basis", .mixSpace,
+     .bin .add p1 (.bin .sub p2 p2), .bin .add p1 (.bin .sub p1 p1)⟩,
   -- lerp
   ⟨"lerp vec", .mixSpace, .ter .lerp v1 v2 s, .ter .lerp v1 (.un (.to (.real 3 b1)) v2) s⟩,
   ⟨"lerp point", .mixSpace, .ter .lerp p1 p2 s, .ter .lerp p1 p1 s⟩,
@@ -131,6 +148,8 @@ def pairs : List Pair := [
   ⟨"compose, explicit retag", .composeMismatch, .bin .compose m12 m23,
      .bin .compose m12 (.un (.to (.r2r 3 b2 b1)) m23)⟩,
   ⟨"projective after mismatching affine", .composeMismatch, .bin .compose mp1 m12, .bin .compose mp2 m12⟩,
+  ⟨"transpose of a 3x3 array tagged as a map of R^4", .mixDim, .un .transpose m34, .un .transpose n12⟩,
+  ⟨"transpose, explicit retag", .mixDim, .un .transpose m34, .un .transpose (.un (.to (.r2r 3 b1 b2)) m34)⟩,
   ⟨"compose 4x4 with 3x3", .composeMismatch, .bin .compose m12 n12, .bin .compose m21 m12⟩,
   -- projective maps are not affine
   ⟨"affine after projective", .projAsAffine, .bin .compose m12 mp1, .bin .compose mp2 m12⟩,
